@@ -139,4 +139,6 @@ def run(P, ctx):
     clause1(P, res)
     clause2(P, res)
     clause3(P, res)
+    from rules import leftright
+    leftright.check(P, res, "C07-4", r"^fibre::<?spmc::ring_buffer", 2)
     return res
